@@ -92,7 +92,7 @@ pub fn generate_arrays(rng: &mut Rng, thorough: bool, out: &mut Out) {
     let n = if thorough { 6000 } else { 600 };
     for i in 0..n {
         if i % 3 == 2 {
-            let (q, r) = run_cylchamfer(rng.uniform(0.1, 5.0), rng.uniform(0.0, 3.0), dim(rng), dim(rng), rng.range(3, 128) as u64);
+            let (q, r) = run_cylchamfer(rng.uniform(0.1, 5.0), rng.uniform(0.0, 3.0), dim(rng), dim(rng), if rng.chance(0.2) { rng.below(4) } else { rng.range(3, 128) as u64 });
             out.case(q, r);
             continue;
         }
